@@ -124,8 +124,10 @@ class Runner:
                                capture_output=True, text=True, timeout=max(300, self.run_timeout * 4))
         except subprocess.TimeoutExpired:
             return False
-        want = f"class={key[0]} sig={key[1]}"
-        return p.returncode == 1 and want in p.stdout
+        bc = getattr(self.mod, "BUDGET_CLASSES", ())
+        if key[0] in bc:
+            return p.returncode == 1 and any(f"class={c} sig=" in p.stdout for c in bc)
+        return p.returncode == 1 and f"class={key[0]} sig={key[1]}" in p.stdout
 
     # ---- main loop
     def run(self) -> int:
@@ -220,6 +222,7 @@ class Runner:
                 det["mismatch_runs"].append(tag)
 
         # 3. budget-oracle candidates (killed / crashed children) must reproduce twice, alone
+        n_confirmations = 0
         for tag, payload, rec, v in pending_harness:
             key = (v["class"], v["sig"])
             if key in viol:
@@ -230,12 +233,18 @@ class Runner:
                 viol[key] = (tag, case, v)  # a listed finding: reported as KNOWN-FINDING below, no need to re-confirm it twice
                 viol_count[key] += 1
                 continue
+            if n_confirmations >= 6:
+                agg["unconfirmed"] += 1  # each confirmation costs up to two wall budgets: a bounded number per run
+                continue
+            n_confirmations += 1
             ok = 0
             for _ in range(2):
                 r = self.exec_cases([case], workers=1)[0]
                 if r is not None and "_harness" in r:
                     v2 = self._classify_harness(r, {"case": case})
-                    if v2 and (v2["class"], v2["sig"]) == key:
+                    # (a loop that spans several functions is caught in a different innermost frame every time: for the
+                    #  budget classes a repeated kill of the same case confirms, whatever frame the dump shows)
+                    if v2 and ((v2["class"], v2["sig"]) == key or (v2["class"] in getattr(mod, "BUDGET_CLASSES", ()) and key[0] in getattr(mod, "BUDGET_CLASSES", ()))):
                         ok += 1
                 elif r is not None and self.reproduces(r, key):
                     ok += 1
@@ -244,6 +253,7 @@ class Runner:
                 viol_count[key] += 1
             else:
                 agg["unconfirmed"] += 1
+                print(f"note: budget candidate of run {tag} not confirmed ({ok}/2 repeats): {key}", file=sys.stderr)
 
         # 4. violations: known finding, or minimise + fresh replay
         n_viol = 0
